@@ -84,22 +84,7 @@ def create_tree_using_stacks(g: Grammar, r: ListWrapper, failures_limit=100):
             )
             # print("..........")
             # print(target_type, "|", stacks)
-            if is_metahandler(target_type):
-                # A refined type: its values are generated by the metahandler itself (drawing from
-                # the genotype), so that they satisfy the refinement.
-                metahandler = get_args(target_type)[1]
-                base_type = get_generic_parameter(target_type)
-
-                def take(ty, **kwargs):
-                    return stacks[ty].pop()
-
-                try:
-                    v = metahandler.generate(r, g, base_type, take, {})
-                except KeyError:
-                    # dependent refinements need sibling values, which are not known here
-                    raise IndexError()
-                add_to_stacks(stacks, target_type, v)
-            elif is_abstract(target_type):
+            if is_abstract(target_type):
                 concrete = r.choice(g.alternatives[target_type])
                 if stacks[concrete]:
                     v = stacks[concrete].pop(0)
